@@ -1191,6 +1191,8 @@ class ArithmeticExpression(Term):
     def get_sql(self, ctx: SqlContext) -> str:
         left_op, right_op = [getattr(side, "operator", None) for side in [self.left, self.right]]
 
+        # render left before right: a parameterizer collects values in rendering order
+        left_sql = self.left.get_sql(ctx)
         right_sql = self.right.get_sql(ctx)
         right_parens = self.right_needs_parens(self.operator, right_op)
         if self.operator == Arithmetic.sub and right_sql.startswith("-"):
@@ -1199,9 +1201,7 @@ class ArithmeticExpression(Term):
 
         arithmetic_sql = "{left}{operator}{right}".format(
             operator=self.operator.value,
-            left=("({})" if self.left_needs_parens(self.operator, left_op) else "{}").format(
-                self.left.get_sql(ctx)
-            ),
+            left=("({})" if self.left_needs_parens(self.operator, left_op) else "{}").format(left_sql),
             right=("({})" if right_parens else "{}").format(right_sql),
         )
 
